@@ -272,6 +272,8 @@ def generate(ch, profile):
         cfg["turn_refresh"] = {"side": ch.choice("cfg", ["A", "B"]), "nth": ch.choice("cfg", [3, 6, 10, 20, 40, 80]),
                                "dur": ch.choice("cfg", [0.005, 0.05, 0.3])}
     cfg["lifecycle"] = profile in ("c01", "c02") and ch.chance("cfg", 0.2)
+    # SCTP ports of the two ends (the default 5000/5000 in most runs)
+    cfg["ports"] = ch.choice("cfg", [[5000, 5000], [5000, 5000], [5000, 5000], [5001, 5002], [1, 65535], [6000, 5000]])
     nchan = ch.choice("wl", [1, 1, 2, 2, 3, 4, 5])
     chans = [gen_channel(ch, k, profile) for k in range(nchan)]
     ops = []
@@ -441,7 +443,7 @@ class World:
                 return vals.popleft() if vals else real()
 
             sctpmod.random32 = r32
-            self.sctp[side] = self.ctx[side].run(sctpmod.RTCSctpTransport, self.dtls[side], 5000)
+            self.sctp[side] = self.ctx[side].run(sctpmod.RTCSctpTransport, self.dtls[side], self.port(side))
             sctpmod.random32 = real
         self._restore = []
         sseq0 = cfg.get("sseq_origin", 0)
@@ -1102,6 +1104,9 @@ class World:
             return False
         return not self.buffered()
 
+    def port(self, side):
+        return (self.cfg.get("ports") or [5000, 5000])[0 if side == "A" else 1]
+
     def failed_task(self):
         """Tag of the first aiortc task that ended with an exception other than a connection error (diagnosis only)."""
         for f in self.loop.task_failures:
@@ -1161,13 +1166,13 @@ class World:
         skew = self.cfg.get("start_skew", 0.0)
         first = "B" if self.cfg.get("start_first", "B") == "B" else "A"
         second = "A" if first == "B" else "B"
-        self.tasks.append(loop.create_task(self.sctp[first].start(caps, 5000), context=self.ctx[first]))
+        self.tasks.append(loop.create_task(self.sctp[first].start(caps, self.port(second)), context=self.ctx[first]))
 
         async def late_start():
             if skew:
                 await asyncio.sleep(skew)
             if second not in self.stopped:  # an application does not start a stopped transport
-                await self.sctp[second].start(caps, 5000)
+                await self.sctp[second].start(caps, self.port(first))
 
         self.tasks.append(loop.create_task(late_start(), context=self.ctx[second]))
         loop.step_hook = self.step_hook
